@@ -36,8 +36,8 @@ NLINES = int(PARAMS.get("nlines", 3))
 REPLACE = bool(PARAMS.get("replace", True))
 MERGE = bool(PARAMS.get("merge", False))
 FIRST = PARAMS.get("first")  # fix the kind of the first line
-KINDS = ["blank", "ws", "code", "indented", "own-comment", "foreign-comment", "old-header", "shebang", "absent", "late-shebang"]
-ALLOWED = PARAMS.get("kinds", list(range(len(KINDS))))
+KINDS = ["blank", "ws", "code", "indented", "own-comment", "foreign-comment", "old-header", "shebang", "absent", "late-shebang", "long-header"]
+ALLOWED = PARAMS.get("kinds", list(range(10)))  # "long-header" (a header of more than 4 KiB) only on request
 
 OLD_C = "SPDX-FileCopyrightText: 2019 Old Holder"
 OLD_L = "0BSD"
@@ -59,8 +59,15 @@ def _foreign_comment():
     return "# a foreign note"
 
 
-def old_header():
-    info = ReuseInfo(spdx_expressions={ex._LICENSING.parse(OLD_L)}, copyright_lines={OLD_C})
+OLD_SAME_HOLDER = bool(PARAMS.get("old_same_holder", False))
+
+
+def old_header(n_holders=1):
+    if OLD_SAME_HOLDER:
+        lines = {"SPDX-FileCopyrightText: 2016 - 2018 Jane Doe"}
+    else:
+        lines = {OLD_C} | {f"SPDX-FileCopyrightText: 20{i % 90 + 10} Holder Number {i} <holder{i}@example.org>" for i in range(n_holders - 1)}
+    info = ReuseInfo(spdx_expressions={ex._LICENSING.parse(OLD_L)}, copyright_lines=lines)
     return hd._create_new_header(info, style=STYLE, force_multi=MULTI)
 
 
@@ -80,6 +87,8 @@ def line_of(kind, i):
         return [_foreign_comment()]
     if kind == "old-header":
         return old_header().split("\n")
+    if kind == "long-header":
+        return old_header(80).split("\n")
     if kind == "shebang":
         sb = STYLE.SHEBANGS[0] if STYLE.SHEBANGS else "#!"
         return [sb + "/usr/bin/env thing"]
@@ -119,7 +128,7 @@ def scenario(k0, k1, k2, k3, final_nl):
             k = "code"
         if k == "late-shebang" and i == 0:
             k = "code"
-        if k == "old-header":
+        if k in ("old-header", "long-header"):
             if seen_header:
                 k = "code"
             seen_header = True
@@ -146,7 +155,16 @@ def _pre(k0, k1, k2, k3):
     return ok
 
 
+REQUEST = PARAMS.get("request", "full")  # full | contributor-only | licence-only | copyright-only
+
+
 def new_info():
+    if REQUEST == "contributor-only":
+        return ReuseInfo(contributor_lines={NEW_F})
+    if REQUEST == "licence-only":
+        return ReuseInfo(spdx_expressions={ex._LICENSING.parse(NEW_L)})
+    if REQUEST == "copyright-only":
+        return ReuseInfo(copyright_lines={NEW_C})
     return ReuseInfo(spdx_expressions={ex._LICENSING.parse(NEW_L)}, copyright_lines={NEW_C}, contributor_lines={NEW_F})
 
 
@@ -209,7 +227,7 @@ def _idem_reach(k0: int, k1: int, k2: int, k3: int, final_nl: bool) -> bool:
 
 def explain_idem(*a):
     why, items, text, once, twice = idem_story(*a)
-    return {"style": STYLE.__name__, "multi": MULTI, "replace": REPLACE, "body": items, "text": text, "after_first_run": once, "after_second_run": twice, "why": why, "known_key": known_key()}
+    return {"style": STYLE.__name__, "multi": MULTI, "replace": REPLACE, "body": items, "text": text, "after_first_run": once, "after_second_run": twice, "why": why, "known_key": known_key(), "request": REQUEST}
 
 
 # ------------------------------------------------------------------ C09: information only accumulates
@@ -225,12 +243,26 @@ def acc_story(k0, k1, k2, k3, final_nl):
     after = read(out)
     if after is None:
         return "the annotated file cannot be read any more", items, text, out, before, after
-    want_c = set(before[0]) | {NEW_C}
-    want_l = set(before[1]) | {NEW_L}
-    want_f = set(before[2]) | {NEW_F}
+    want_c = set(before[0]) | ({NEW_C} if REQUEST in ("full", "copyright-only") else set())
+    want_l = set(before[1]) | ({NEW_L} if REQUEST in ("full", "licence-only") else set())
+    want_f = set(before[2]) | ({NEW_F} if REQUEST in ("full", "contributor-only") else set())
     if MERGE:
-        # same holders, year range spanning all years: compare holders only here (years: C20)
-        ok_c = len(after[0]) >= 1
+        # same holders remain, each with a year range covering all years stated before
+        def holders(notices):
+            out = {}
+            for n in notices:
+                for p in ex._COPYRIGHT_PATTERNS:
+                    m = p.search(n)
+                    if m is not None:
+                        g = m.groupdict()
+                        y = g["year"]
+                        ys = [] if not y else ([str(y)] if len(y) == 4 else [str(y)[:4], str(y)[-4:]])  # own reading of 'YYYY' / 'YYYY - YYYY'
+                        out.setdefault(str(g["statement"]), []).extend(ys)
+                        break
+            return out
+
+        hb, ha = holders(want_c), holders(after[0])
+        ok_c = sorted(hb) == sorted(h for h in ha if h in hb) and all((not ys) or (ha[h] and min(ha[h]) <= min(ys) and max(ha[h]) >= max(ys)) for h, ys in hb.items())
     else:
         ok_c = want_c <= set(after[0])
     if not ok_c:
@@ -285,7 +317,7 @@ def keep_story(k0, k1, k2, k3, final_nl):
         return l.startswith(STYLE.SINGLE_LINE)
 
     removable = set()
-    hdr = [s for s in spans if s[0] == "old-header"]
+    hdr = [s for s in spans if s[0] in ("old-header", "long-header")]
     if REPLACE and STYLE is cm.EmptyCommentStyle:
         removable = set(range(len(lines)))  # a .license file is its header: it is replaced as a whole
     elif REPLACE and hdr:
@@ -340,7 +372,8 @@ def keep_story(k0, k1, k2, k3, final_nl):
     i, j, kept = fit
     inserted = got[i : len(got) - j]
     info = read("\n".join(inserted))
-    if info is None or NEW_C not in info[0]:
+    marker_ok = info is not None and ((NEW_C in info[0]) if REQUEST in ("full", "copyright-only") else (NEW_L in info[1]) if REQUEST == "licence-only" else (NEW_F in info[2]))
+    if not marker_ok:
         return "the inserted block is not the new header", items, text, out, {"inserted": inserted}
     # shebang lines stay first
     sb = [lines[x] for x in sorted(shebang_lines)]
